@@ -86,12 +86,14 @@ prop("C03", level="proof", runtime=True,
 prop("C02", level="other", runtime=True,
      explanation="Partial. PROVED for every population, size and input order (loop invariants over all seven loops of the real "
                  "fast_nondominated_sorting, no cardinalities needed): front 1 is EXACTLY the set of members that no other member "
-                 "dominates, and no member ever carries a front number below 1; also the id lookup Selector.individual, "
+                 "dominates, no member ever carries a front number below 1, and every member of a later front is dominated by a member "
+                 "of the PREVIOUS front (so a front number never exceeds the true Pareto rank: there is a chain of that many "
+                 "dominators); also the id lookup Selector.individual, "
                  "crowding_distance (called once per front; its precondition is discharged at the call) and three consequences of "
                  "the rank specification (lemmas). The sorter is verified against the comparator-agnostic reading of its own "
                  "verdicts (compare(X[min], X[max]) == 1 / == 2); three lemmas show that for the Pareto comparator this is the "
-                 "textbook dominance relation. NOT proved: the rank law for later fronts (every member of front k>1 has all its "
-                 "dominators in earlier fronts and one in front k-1) and that nobody is left unranked: the counter argument needs "
+                 "textbook dominance relation. NOT proved: that ALL dominators of a member lie in earlier fronts (the other half of the "
+                 "rank law: front number >= true rank) and that nobody is left unranked: the counter argument needs "
                  "per-member ghost lists of unprocessed dominators and a well-foundedness lemma that were not discharged. The COMPLETE "
                  "specification is evaluated at run time on the real function over every sequence of n<=3 (quick) / n<=4 (thorough) "
                  "points of a 3x3 grid, i.e. all order types and input orders of that size, plus random larger populations with "
